@@ -326,3 +326,156 @@ func ruleJoinEnd(c *eng.Ctx) {
 	}
 	c.Floor(rule, n, 3)
 }
+
+// ruleJoinInvertGuards: two necessary conditions for "the same answer whether or not an index lets
+// the planner invert the join".
+// (a) The inverted join only produces parents that have a related document, so the planner may
+// invert on a relation filter only after establishing that a parent without a related document does
+// not satisfy it: every call of invertJoinDirectionWithIndex in tryOptimizeJoinDirectionByFilter is
+// preceded by mapper.RunFilter(<mapping>.NewDoc(), …) whose positive result leaves the iteration.
+// (b) After the inversion the parent side is fetched by docID; its scan must not keep a secondary
+// index (the index fetcher ignores the requested docID): invertJoinDirectionWithIndex clears the
+// parent scan's index on every successful exit.
+func ruleJoinInvertGuards(c *eng.Ctx) {
+	const rule = "JOIN-INVERT-GUARDS"
+	if fi := c.Anchor(rule, "internal/planner.(*Planner).tryOptimizeJoinDirectionByFilter"); fi != nil {
+		info := fi.Pkg.TypesInfo
+		flow := eng.NewFlow(info, fi.Decl.Body)
+		// the probe: v, err := mapper.RunFilter(X.NewDoc(), f)
+		var probeVar types.Object
+		isProbe := func(nd ast.Node) bool {
+			as, ok := nd.(*ast.AssignStmt)
+			if !ok || len(as.Rhs) != 1 {
+				return false
+			}
+			call, ok := ast.Unparen(as.Rhs[0]).(*ast.CallExpr)
+			if !ok || !strings.HasSuffix(eng.CalleeName(info, call), "mapper.RunFilter") || len(call.Args) != 2 {
+				return false
+			}
+			inner, ok := ast.Unparen(call.Args[0]).(*ast.CallExpr)
+			if !ok {
+				return false
+			}
+			if se, ok := inner.Fun.(*ast.SelectorExpr); !ok || se.Sel.Name != "NewDoc" {
+				return false
+			}
+			probeVar = eng.ObjOf(info, as.Lhs[0])
+			return true
+		}
+		n := 0
+		for _, cs := range eng.Calls(info, fi.Decl.Body) {
+			if !strings.HasSuffix(cs.Name, ".invertJoinDirectionWithIndex") {
+				continue
+			}
+			n++
+			var stmt ast.Node
+			ast.Inspect(fi.Decl.Body, func(m ast.Node) bool {
+				if as, ok := m.(*ast.AssignStmt); ok && as.Pos() <= cs.Call.Pos() && cs.Call.End() <= as.End() {
+					stmt = as
+				}
+				return true
+			})
+			if stmt == nil {
+				c.Unknown(rule, fmt.Sprintf("tryOptimizeJoinDirectionByFilter:invert#%d", n), cs.Call.Pos(), "inversion call not bound in a statement")
+				continue
+			}
+			pt, _ := flow.PointOf(stmt)
+			unprobed := flow.ReachesWithout(pt, isProbe, nil)
+			// the positive result leaves: an if on the probe variable whose body ends in continue/return,
+			// and under probe=true the inversion is unreachable from the probe
+			leaves := false
+			if probeVar != nil {
+				ast.Inspect(fi.Decl.Body, func(m ast.Node) bool {
+					is, ok := m.(*ast.IfStmt)
+					if !ok || eng.ObjOf(info, is.Cond) != probeVar || len(is.Body.List) == 0 {
+						return true
+					}
+					switch l := is.Body.List[len(is.Body.List)-1].(type) {
+					case *ast.BranchStmt:
+						leaves = l.Tok == token.CONTINUE || l.Tok == token.BREAK
+					case *ast.ReturnStmt:
+						leaves = true
+					}
+					return true
+				})
+			}
+			c.Check(!unprobed && leaves, rule, fmt.Sprintf("tryOptimizeJoinDirectionByFilter:invert#%d:after-null-parent-probe", n), cs.Call.Pos(), "the join is inverted only if a parent without related document fails the relation filter",
+				"the join is inverted on a relation filter without first evaluating that filter on a parent that has no related document: conditions a missing relation satisfies (_ne, _nin, _eq: null) then lose exactly those parents once the related field is indexed")
+		}
+		c.Floor(rule+":invert-sites", n, 1)
+	}
+	if fi := c.Anchor(rule, "internal/planner.(*invertibleTypeJoin).invertJoinDirectionWithIndex"); fi != nil {
+		info := fi.Pkg.TypesInfo
+		flow := eng.NewFlow(info, fi.Decl.Body)
+		// locals bound to the parent side's scan node
+		parentScans := map[types.Object]bool{}
+		ast.Inspect(fi.Decl.Body, func(m ast.Node) bool {
+			as, ok := m.(*ast.AssignStmt)
+			if !ok || len(as.Lhs) != 1 || len(as.Rhs) != 1 {
+				return true
+			}
+			if strings.Contains(eng.ExprStr(as.Rhs[0]), "parentSide.plan") && strings.Contains(eng.ExprStr(as.Rhs[0]), "getNode") {
+				if o := eng.ObjOf(info, as.Lhs[0]); o != nil {
+					parentScans[o] = true
+				}
+			}
+			return true
+		})
+		clears := func(nd ast.Node) bool {
+			found := false
+			ast.Inspect(nd, func(x ast.Node) bool {
+				as, ok := x.(*ast.AssignStmt)
+				if !ok || len(as.Lhs) != 1 || len(as.Rhs) != 1 {
+					return true
+				}
+				se, ok := ast.Unparen(as.Lhs[0]).(*ast.SelectorExpr)
+				if !ok || se.Sel.Name != "index" || !parentScans[eng.ObjOf(info, se.X)] {
+					return true
+				}
+				if call, ok := ast.Unparen(as.Rhs[0]).(*ast.CallExpr); ok && strings.Contains(eng.CalleeName(info, call), "immutable.None") {
+					found = true
+				}
+				if cl, ok := ast.Unparen(as.Rhs[0]).(*ast.CompositeLit); ok && len(cl.Elts) == 0 {
+					found = true
+				}
+				return true
+			})
+			return found
+		}
+		// the clearing may sit in `if scan := …; scan != nil { scan.index = None }`: treat the whole if as the guard
+		guard := func(nd ast.Node) bool {
+			if clears(nd) {
+				return true
+			}
+			return false
+		}
+		// go/cfg splits an if into cond + body blocks; a clearing inside `if scan != nil {…}` is skipped only
+		// when there is no scan node, which is fine: evaluate reachability assuming the nil test holds
+		n, bad := 0, token.NoPos
+		for _, r := range successReturnsP(c.P, info, fi.Decl) {
+			n++
+			pt, ok := flow.PointOf(r)
+			if !ok {
+				continue
+			}
+			un := flow.ReachesWithout(pt, guard, func(cond ast.Expr, taken bool) bool {
+				// `parentScan != nil` is assumed to hold (a join side always has a scan node when it is indexed)
+				for o := range parentScans {
+					if is, nonNilWhenTrue := eng.ErrNilTest(info, cond, o); is {
+						return taken == nonNilWhenTrue
+					}
+				}
+				return true
+			})
+			if un {
+				bad = r.Pos()
+			}
+		}
+		pos := fi.Decl.Pos()
+		if bad != token.NoPos {
+			pos = bad
+		}
+		c.Check(n > 0 && bad == token.NoPos && len(parentScans) > 0, rule, "invertJoinDirectionWithIndex:parent-scan-index-cleared", pos, "the parent scan drops its secondary index when the join is inverted",
+			"after the inversion the parent documents are fetched by docID but the parent scan keeps the secondary index chosen for its own filter: the index fetcher ignores the docID and yields another document, the join then drops the row")
+	}
+}
